@@ -36,6 +36,7 @@ def plan(tier, seed):
     for word in (2, 3):
         specs.append({'kind': 'grid', 'word': word, 'tier': tier})
     parts = 4 if tier == 'quick' else 8
+    specs += [{'kind': 'cli', 'part': i, 'parts': 2} for i in range(2)]
     for p in range(parts):
         specs.append({'kind': 'templates', 'seed': seed, 'part': p, 'parts': parts, 'words': [2] if tier == 'quick' else [2, 3, 4]})
     return specs
@@ -124,6 +125,44 @@ empty @is_you(int n) {
 '''
 
 
+# programs built through the command-line tool (the flag reaches the compiler through hidc/__main__.py, which may treat
+# the two builds differently before or after the library does): punctuation bytes, comments, shadowed constant tables
+CLI_PROGRAMS = [
+    ('semicolons and comment look-alikes',
+     "empty @is_you() { // a comment ; with ; semicolons\n    write(';'); write(\"a;b//c\"); byte[] t = [',', ';', '/']; write(t); write(';' is int); write(\"; \\\"q;\\\" ;\");\n"
+     "    if (t[1] == ';') { writeln(';'); }\n}\n", []),
+    ('global constant table shadowed by parameter and local',
+     "const int[] primes = [2, 3, 5, 7];\nconst byte[] tag = ['g', 'h'];\n"
+     "empty show(const int[] primes) { write(primes[0]); write(','); write(primes[3]); write(' '); }\n"
+     "empty showb(const byte[] tag, int k) { write(tag[0]); write(tag[k]); write(' '); }\n"
+     "empty @is_you(int a, int b) {\n    show(primes); show([11, 13, 17, 19]); show([a, b, a, b]);\n    const int[] primes = [a, 31, 37, b]; write(primes[0]); write(primes[3]); write(' ');\n"
+     "    showb(tag, 1); showb(['x', 'y'], 1); { const byte[] tag = [a is byte, 'z']; write(tag[1]); write(tag[0] is int); }\n    writeln();\n}\n", ['23', '29']),
+    ('string data with every punctuation byte', 'empty @is_you() { writeln("!\\"#$%&\'()*+,-./:;<=>?@[\\\\]^_`{|}~"); write(\';\'); write(\'#\'); write(\'/\'); writeln(\'"\'); }\n', []),
+    ('hello', 'empty @is_you() { writeln("Hello; world // not a comment"); }\n', []),
+]
+
+
+def cli_build(src, word, unchecked, extra=()):
+    import os
+    import subprocess
+    import sys
+    from .. import env
+    scratch = os.environ.get('HIDVERIF_SCRATCH') or os.path.join(env.VERIF, '.scratch')
+    d = os.path.join(scratch, f'c15cli-{os.getpid()}')
+    os.makedirs(d, exist_ok=True)
+    inp, out = os.path.join(d, 'in.hid'), os.path.join(d, 'out.s')
+    with open(inp, 'w') as f:
+        f.write(src)
+    if os.path.exists(out):
+        os.remove(out)
+    p = subprocess.run([sys.executable, '-m', 'hidc', inp, '-o', out, '-m', str(8 * word)] + (['--unchecked'] if unchecked else []) + list(extra),
+                       env=dict(os.environ, PYTHONPATH=env.REPO), capture_output=True, timeout=120)
+    if p.returncode != 0 or not os.path.exists(out):
+        return None, p.stderr.decode('utf-8', 'replace')[-200:]
+    with open(out, 'rb') as f:
+        return f.read().split(b'\n'), ''
+
+
 def run_with_guards(lines, args):
     prog = assemble(lines, args)
     g = GuardMonitor()
@@ -171,6 +210,48 @@ def run_shard(spec):
                             case, expected=oc.brief(), observed=ou.brief())
                 continue
             res['nontrivial'].append(runner.case_id(src, word))
+        return res
+    if spec['kind'] == 'cli':
+        import glob
+        import os
+        from .. import env
+        progs = list(CLI_PROGRAMS)
+        for path in sorted(glob.glob(os.path.join(env.REPO, 'examples', '*.hid'))):
+            with open(path) as f:
+                from .c03 import EXAMPLE_ARGS
+                for a in EXAMPLE_ARGS.get(os.path.basename(path), [])[:1]:
+                    progs.append(('examples/' + os.path.basename(path), f.read(), list(a)))
+        for k, (tag, src, args) in enumerate(progs):
+            if k % spec['parts'] != spec['part']:
+                continue
+            for word in (2, 3):
+                res['evaluations'] += 1
+                case = diff.case_dict(src, args or [], word, 500, gen='cli:' + tag)
+                lc, ec = cli_build(src, word, False)
+                lu, eu = cli_build(src, word, True)
+                if lc is None:
+                    runner.count(res, 'cli_checked_build_refused')
+                    continue
+                if lu is None:
+                    runner.fail(res, 'M-DIFF', f'cli {tag}: the checked build compiles but `--unchecked` fails: {eu}', case)
+                    continue
+                try:
+                    pu = assemble(lu, args or [])
+                    pc = assemble(lc, args or [])
+                except Exception as e:  # noqa  AsmError
+                    runner.fail(res, 'M-ASM', f'cli {tag}: {e}', case)
+                    continue
+                vc, vu = VM(pc, MAX_STEPS, []), VM(pu, MAX_STEPS, [])
+                vc.run()
+                vu.run()
+                oc, ou = Outcome(vc), Outcome(vu)
+                if any(f in FAULT_FLAGS for f in oc.flags):
+                    runner.count(res, 'checked_run_faulted_or_undefined')
+                elif oc.stream != ou.stream or oc.klass != ou.klass:
+                    runner.fail(res, 'M-DIFF', f'cli {tag}: checked {oc.klass} {oc.out[:60]!r} != unchecked {ou.klass} {ou.out[:60]!r}', case, expected=oc.brief(), observed=ou.brief())
+                else:
+                    runner.count(res, 'cli_pairs_identical')
+                    res['nontrivial'].append(runner.case_id('cli', tag, word))
         return res
     if spec['kind'] == 'templates':
         work = [(tag, src, args) for i, (tag, src, args) in enumerate(memprogs.cases(spec['seed'], 0)) if i % spec['parts'] == spec['part']]
